@@ -2,7 +2,7 @@
 From Coq Require Import String ZArith List Bool Reals QArith.
 From XV Require Import Base.Scalar Base.Sum Base.Mat Base.RInst Model.Eof Model.Cpcca Model.Eeof Model.Whiten Gen.T5cpcca
   Proofs.C01_proofs Proofs.C10_proofs Proofs.C10_real Proofs.C16_proofs
-  Base.Hom Base.CInst Proofs.Hom_eof Proofs.Hom_cpcca.
+  Base.Hom Base.CInst Proofs.Hom_eof Proofs.Hom_cpcca Gen.T5eeof Proofs.Eeof_tie.
 From Coquelicot Require Import Complex.
 Import ListNotations.
 
@@ -95,3 +95,13 @@ Theorem C10_complex_transform_on_real_data : forall (m p k : nat) (o : @eof_out 
   eof_inverse OCR m p k (omap RtoC o) (mmap RtoC S) = mmap RtoC (eof_inverse OR m p k o S).
 Proof. exact (fun m p k o Xn S => conj (eof_transform_hom OR OCR RtoC RtoC_hom m p k o Xn) (eof_inverse_hom OR OCR RtoC RtoC_hom m p k o S)). Qed.
 Print Assumptions C10_complex_transform_on_real_data.
+
+(* the delay embedding of the model is the one of the source (lags j * tau, copies shifted towards the past, (embedding - 1) * tau
+   rows cut, inner EOF with the user's centring only): constants and expressions regenerated from eeof.py on every run *)
+Theorem C10_eeof_matches_source :
+  (forall n tau e, (1 <= e)%nat -> Z.of_nat (embed_rows n tau e) = Z.max 0 (Z.of_nat n - eeof_rows_cut (Z.of_nat e) (Z.of_nat tau))) /\
+  (forall t j tau, Z.of_nat (t + j * tau) = eeof_copy_row (Z.of_nat t) (eeof_lag (Z.of_nat j) (Z.of_nat tau))) /\
+  (eeof_copies_concatenated_along_new_dim_then_first_rows_kept = true /\
+   eeof_inner_eof_follows_center_only = true /\ eeof_pca_scores_are_embedded = true).
+Proof. exact (conj embed_rows_matches_source (conj embed_row_matches_source eeof_shape_flags)). Qed.
+Print Assumptions C10_eeof_matches_source.
